@@ -476,6 +476,20 @@ def run(ctx):
     _d4(ctx)
     _d5(ctx)
     _d6(ctx, roles, offs)
+    # the payload offset of the response record is the length of what arrived before begin_response (C05-D3): exactly one header block
+    # may be read while the response listener is attached and before that event - an interim response read in a loop would be part of the
+    # block but not of the offset
+    hs = repo.func('wpull.protocol.http.client:Session.start')
+    hpm = U.parents(hs.node)
+    rr = [c for c in U.calls(hs.node) if U.attr_name(c) == 'read_response']
+    in_loop = [c for c in rr if any(isinstance(a, (ast.For, ast.While)) for a in U.ancestors(c, hpm))]
+    ck.expect(len(rr) == 1 and not in_loop, 'C05-D3', hs.qual, 'one read_response() before begin_response (no loop)',
+              'Session.start reads %s header block(s)%s while the recorder\'s listener is attached: the response record then holds more than '
+              'one header block and the payload offset (taken at begin_response) points behind them - WARC-Payload-Digest is not the digest of '
+              'what follows the first header block' % (len(rr), ', one of them in a loop' if in_loop else ''), hs.loc(in_loop[0] if in_loop else (rr[1] if len(rr) > 1 else None)))
+    # record IDs are unique: a record written in a loop is created in that loop (wherever in the repository records are written)
+    from .common import fresh_record_per_write_lint
+    fresh_record_per_write_lint(ctx, 'C05-D5')
     # a failed append must not leave a torn record in the file (append / journal / rollback discipline shared with C06)
     from . import c06
     from .common import RemapCtx
